@@ -266,7 +266,11 @@ class Interp:
             if d == "core::option::Option::None":
                 return None
             if (e.get("dk") or "").startswith("Ctor"):
+                if "Fn" in (e.get("dk") or ""):
+                    return ("__ctorfn", e.get("ctor_of") or d)      # a tuple-variant constructor used as a function value
                 return Var(e.get("ctor_of") or d)
+            if (e.get("dk") or "") in ("Fn", "AssocFn") and d in self.f.fns:
+                return ("__fn", d)
             if d in self.builtins:
                 return self.builtins[d](self, [])
             if self.free_opaque:
@@ -595,6 +599,13 @@ class Interp:
         # a local closure called directly: `let f = |x| ..; f(a)`
         if e.get("k") == "call" and isinstance(e.get("fn_expr"), dict):
             fv = self.ev(e["fn_expr"], env, depth)
+            if isinstance(fv, tuple) and len(fv) == 2 and fv[0] == "__ctorfn":
+                args = [self.ev(a, env, depth) for a in e.get("args") or []]
+                if fv[1] == "core::option::Option::Some":
+                    return ("__some", args[0])
+                return Var(fv[1], args)
+            if isinstance(fv, tuple) and len(fv) == 2 and fv[0] == "__fn":
+                return self.call_fn(fv[1], [self.ev(a, env, depth) for a in e.get("args") or []], depth + 1)
             if isinstance(fv, tuple) and len(fv) == 3 and fv[0] == "__closure":
                 args = [self.ev(a, env, depth) for a in e.get("args") or []]
                 # the closure runs in the environment it captured by reference: assignments to captured locals persist
@@ -645,6 +656,29 @@ class Interp:
         if c in ("core::result::Result::Ok", "core::result::Result::Err"):
             return (c.rsplit("::", 1)[-1], self.ev(e["args"][0], env, depth))
         # transparent std helpers
+        if e.get("k") == "mcall" and name in ("or_else", "or", "and_then", "map", "unwrap_or", "unwrap_or_else", "is_some", "is_none") and \
+                (decl.startswith("core::option::Option") or c.startswith("core::option::Option")):
+            v = self.ev(e["recv"], env, depth)
+            is_some = isinstance(v, tuple) and len(v) == 2 and v[0] == "__some"
+            if v is not None and not is_some:
+                raise Unsupported("Option::%s on %r" % (name, v))
+            if name == "is_some":
+                return is_some
+            if name == "is_none":
+                return not is_some
+            if name == "or":
+                return v if is_some else self.ev(e["args"][0], env, depth)
+            if name == "unwrap_or":
+                return v[1] if is_some else self.ev(e["args"][0], env, depth)
+            clo = self.ev(e["args"][0], env, depth)
+            if name == "or_else":
+                return v if is_some else self.apply_closure(clo, [], depth + 1)
+            if name == "unwrap_or_else":
+                return v[1] if is_some else self.apply_closure(clo, [], depth + 1)
+            if name == "and_then":
+                return self.apply_closure(clo, [v[1]], depth + 1) if is_some else None
+            if name == "map":
+                return ("__some", self.apply_closure(clo, [v[1]], depth + 1)) if is_some else None
         if e.get("k") == "mcall" and name in ITER_BUILTINS:
             recv = self.ev(e["recv"], env, depth)
             if isinstance(recv, (str, list)):
